@@ -313,7 +313,7 @@ def check(case: dict):
                 try:
                     ods = _from_config(other, td2)
                 except Exception as e:  # noqa: BLE001
-                    raise core.Discard() from e
+                    core.discard_if_unsatisfiable(e, f"C11:foreign:{fld}:request")
                 ofname = L.make_cfg(other).to_fname() + ".zanj"
                 require(os.path.exists(os.path.join(td2, ofname)), "C11:missing:no-file-left", f"a request for the variant configuration ({fld} changed) left no file named {ofname}")
                 with open(os.path.join(td2, ofname), "rb") as f:
